@@ -252,6 +252,7 @@ class World:
         self.max_attempts = 10
         self.event_store = None
         self.bus_log = []
+        self.reactor = False  # C13: also subscribe a subscriber that records an event in reaction to stage completions
         self.handler_calls = []
         self.store = self.queue = self.processor = self.registry = None
         self.pristine = None
@@ -376,6 +377,21 @@ class World:
             bus.subscribe("v-harness", _sub)
         except TypeError:
             bus.subscribe(_sub)
+        if getattr(self, "reactor", False):
+            # a second, *reacting* synchronous subscriber: on every stage completion it records an event of its own
+            # through the recorder (what an audit / notification hook does), outside any store transaction
+            from stabilize.events import get_event_recorder
+            from stabilize.events.base import EntityType, EventType
+
+            def _react(ev):
+                if ev.event_type != EventType.STAGE_COMPLETED:
+                    return
+                rec = get_event_recorder()
+                if rec is not None:
+                    rec.record_context_updated(EntityType.STAGE, ev.entity_id, ev.workflow_id,
+                                               context={"reacted_to": ev.sequence}, source_handler="v-reactor")
+
+            bus.subscribe("v-reactor", _react)
 
     # ---- time ---------------------------------------------------------
     def normalise_time(self):
